@@ -1,5 +1,6 @@
 import Driver.Util
 import ImmuModel.Store.Truncate
+import ImmuModel.Store.TruncateDb
 namespace Driver.C14
 open ImmuModel.Store.Truncate
 
@@ -103,6 +104,9 @@ def step (st : St) : List String → St × String
     | some id =>
       let (s', o) := st.s.exportTx id
       ({ s := s' }, expStr o ++ (if s'.valBsLocked then " locked=1" else " locked=0"))
+  | ["dbtrunc", cp] =>
+    -- control flow of pkg/database vlogTruncator.TruncateUptoTx given the outcome of CopySQLCatalog
+    (st, if ImmuModel.Store.TruncateDb.truncationRuns (cp == "ok") then "truncated" else "refused")
   | ["unlock"] => ({ s := { st.s with valBsLocked := false } }, "ok")
   | _ => (st, "bad-op")
 
